@@ -78,7 +78,12 @@ func (p *player) handler(point string, args ...interface{}) {
 	p.mu.Lock()
 	g := gid()
 	if a, known := p.byGid[g]; known {
-		p.passed[a] = append(p.passed[a], point) // every hook point an actor passes, gated or not, parked or free
+		// every hook point an actor passes, gated or not, parked or free ("point|args" when the point has arguments)
+		if len(args) > 0 {
+			p.passed[a] = append(p.passed[a], point+"|"+fmt.Sprint(args...))
+		} else {
+			p.passed[a] = append(p.passed[a], point)
+		}
 	}
 	if p.free || !p.gated[point] {
 		p.mu.Unlock()
